@@ -379,8 +379,16 @@ func advMessage(layout string, s []byte) (msg []byte, qtype uint16) {
 
 // fanoutMessage: see genC12.
 func fanoutMessage(r *rand.Rand) []byte {
-	segLabel := core.Pick(r, []int{1, 7, 30, 63})
+	segLabel := core.Pick(r, []int{0, 1, 7, 30, 63})
 	chainLen := core.Pick(r, []int{300, 2000, 8000, 16000, 32000})
+	maxRecords := 65535
+	if segLabel == 0 {
+		// pointer-to-pointer hops only (one real label at the far end): the name
+		// stays short, the walk is long. Sized so that a decoder that walks each
+		// name once needs well under a second.
+		chainLen = core.Pick(r, []int{2000, 8000})
+		maxRecords = 250
+	}
 	m := advHeader(1, 0)
 	m = append(m, advQuestion...)
 	m = append(m, 0, 1, 0, 1)
@@ -392,9 +400,12 @@ func fanoutMessage(r *rand.Rand) []byte {
 	last := 0
 	for len(m)-start+segLabel+3 <= chainLen && len(m) < 0x3F00 {
 		last = len(m)
-		m = append(m, byte(segLabel))
-		for i := 0; i < segLabel; i++ {
-			m = append(m, byte('a'+i%26))
+		if segLabel > 0 || prev < 0 {
+			n := max(segLabel, 1)
+			m = append(m, byte(n))
+			for i := 0; i < n; i++ {
+				m = append(m, byte('a'+i%26))
+			}
 		}
 		if prev < 0 {
 			m = append(m, 0)
@@ -406,7 +417,7 @@ func fanoutMessage(r *rand.Rand) []byte {
 	rdlen := len(m) - start
 	m[rdlenAt], m[rdlenAt+1] = byte(rdlen>>8), byte(rdlen)
 	n := 1
-	for len(m)+16 <= 65535 && n < 65535 {
+	for len(m)+16 <= 65535 && n < maxRecords {
 		m = append(m, 0xC0|byte(last>>8), byte(last), 0, 1, 0, 1, 0, 0, 0, 60, 0, 4, 10, 0, byte(n>>8), byte(n))
 		n++
 	}
